@@ -41,6 +41,7 @@ type run struct {
 	nexts        int
 	memberChange bool
 	emptyAtNext  [maxSeats]bool // seat was empty when the last successful Next() returned
+	modBefore    model          // the model before the operation being judged
 	lastDealer   int            // dealer after the last successful Next(), as remembered by the harness (-1: none yet)
 	// concurrent mode
 	sc    *sched
@@ -209,6 +210,7 @@ func opOf(st *sim.Step) opSpec {
 // C18 / C17 / C08 oracles around it.
 func (r *run) seqOp(op opSpec) opResult {
 	before := r.seats()
+	r.modBefore = r.mod
 	dBefore := seatID(r.m.Dealer())
 	res := r.exec(op)
 	r.res.Steps++
@@ -348,11 +350,18 @@ func (r *run) crossCheck() {
 // judgeNext: C17 (button) and C08 (positions) around a Next() call
 func (r *run) judgeNext(before []seatView, dBefore int, res opResult) {
 	n := r.cfg.Max
-	B := playable(before)
+	// who could play before the move: seated and sat in according to the
+	// harness's own record of accepted operations (not the object's flags,
+	// which a refused operation must not have touched), active according to
+	// the object
+	var B []int
 	waiting := 0 // occupied and not reserved, whatever the active flag
-	for _, s := range before {
-		if s.occ && !s.reserved {
+	for i, s := range before {
+		if i < maxSeats && r.modBefore.occ[i] != 0 && !r.modBefore.res[i] {
 			waiting++
+			if s.active {
+				B = append(B, i)
+			}
 		}
 	}
 	after := r.seats()
